@@ -171,7 +171,9 @@ def render_module(p: Dict[str, Any], i: int) -> str:
             lines.append(f"{sp}    self.{op['n']} = {i + 1}000 + {pc}")
             lines.append(f"{sp}    '''site:{i + 1}:{-pc}'''")
         elif k == "alias":
-            lines.append(f"{sp}{op['n']} = {'.'.join(op['v'])}")
+            # three spellings of one binding: bare, annotated, with a type comment (what the name denotes does not depend on it)
+            how = (i + pc) % 3
+            lines.append(f"{sp}{op['n']}{': object' if how == 1 else ''} = {'.'.join(op['v'])}{'  # type: object' if how == 2 else ''}")
         else:
             raise ValueError(k)
     top, end = render_all(m)
